@@ -70,6 +70,9 @@ type World struct {
 	// Ballast > 0 adds two "none" transactions with a payload of that many bytes,
 	// paid by the genesis account, to every block built from ops.
 	Ballast int
+	// BallastCount (default 2) of them; BallastIDs restricts them to those block ids.
+	BallastCount int
+	BallastIDs   map[int]bool
 }
 
 // NewWorld starts the factory node (its blockchain only ever holds genesis; its
@@ -271,14 +274,18 @@ func (w *World) build(id, parent int, diffIdx int, dt int64, txops []simrt.Op, r
 			blk.Txs = append(blk.Txs, tx)
 		}
 	}
-	if w.Ballast > 0 && !raw && len(blk.Txs) > 0 {
-		for k := 0; k < 2; k++ {
+	if w.Ballast > 0 && !raw && len(blk.Txs) > 0 && (w.BallastIDs == nil || w.BallastIDs[id]) {
+		nb := w.BallastCount
+		if nb <= 0 {
+			nb = 2
+		}
+		for k := 0; k < nb; k++ {
 			pay := make([]byte, w.Ballast)
 			copy(pay, fmt.Sprintf("ballast-%d-%d-", id, k))
 			for i := 24; i < len(pay); i++ {
 				pay[i] = byte(id*31 + k*7 + i)
 			}
-			tx := &types.Transaction{Execer: []byte("none"), Payload: pay, To: addrOfExec(w.Cfg, "none"), Nonce: int64(id)*10 + int64(k) + 880000, ChainID: w.Cfg.GetChainID()}
+			tx := &types.Transaction{Execer: []byte("none"), Payload: pay, To: addrOfExec(w.Cfg, "none"), Nonce: int64(id)*100 + int64(k) + 880000, ChainID: w.Cfg.GetChainID()}
 			tx.Fee = 1000000
 			tx.Sign(types.SECP256K1, w.gkey.Priv)
 			if fee, err := tx.GetRealFee(w.Cfg.GetMinTxFeeRate()); err == nil && fee > tx.Fee {
